@@ -163,7 +163,45 @@ theorem foldl_min_sorted (xs : List Nat) (i : Nat) (h : ∀ x ∈ xs, i ≤ x) :
     have : min i y = i := by have := h y (by simp); omega
     rw [this]; exact ih i (fun x hx => h x (by simp [hx]))
 
-theorem coarseCell_ok (g : Grid) (a b : Int) (c : CoarseCell) (h : coarseCell g a b = .ok c) :
+/-- selecting nothing from a list selects nothing from any list that is not longer -/
+theorem sel_eq_nil_of_length_le {α β} : ∀ (m : List Bool) (xs : List α) (ys : List β),
+    sel m xs = [] → ys.length ≤ xs.length → sel m ys = []
+  | [], _, ys, _, _ => sel_nil_left ys
+  | _ :: _, _, [], _, _ => sel_nil_right _
+  | _ :: _, [], _ :: _, _, hl => by simp at hl
+  | true :: _, _ :: _, _ :: _, h, _ => by simp at h
+  | false :: m, _ :: xs, _ :: ys, h, hl =>
+    sel_eq_nil_of_length_le m xs ys (by simpa using h) (by simpa using hl)
+
+/-- consecutive pairs of cuts: the coarse intervals `[cuts_j, cuts_{j+1})` -/
+def cutPairs : List Int → List (Int × Int)
+  | a :: b :: rest => (a, b) :: cutPairs (b :: rest)
+  | _ => []
+
+/-- the coarse interval holds at least one fine step of the reference grid -/
+def hasFine (g : Grid) (ab : Int × Int) : Bool := !(g.restrict ab.1 ab.2).idx.isEmpty
+
+theorem hasFine_false_iff (g : Grid) (ab : Int × Int) : hasFine g ab = false ↔ (g.restrict ab.1 ab.2).idx = [] := by
+  simp [hasFine]
+
+theorem hasFine_true_iff (g : Grid) (ab : Int × Int) : hasFine g ab = true ↔ (g.restrict ab.1 ab.2).idx ≠ [] := by
+  simp [hasFine]
+
+theorem cutPairs_length : ∀ cuts : List Int, (cutPairs cuts).length = cuts.length - 1
+  | [] => rfl
+  | [_] => rfl
+  | a :: b :: rest => by simp [cutPairs, cutPairs_length (b :: rest)]
+
+theorem cutPairs_getElem? : ∀ (cuts : List Int) (j : Nat) (h : j + 1 < cuts.length),
+    (cutPairs cuts)[j]? = some (cuts[j], cuts[j+1])
+  | [], j, h => by simp at h
+  | [_], j, h => by simp at h
+  | a :: b :: rest, 0, _ => by simp [cutPairs]
+  | a :: b :: rest, j+1, h => by
+    have := cutPairs_getElem? (b :: rest) j (by simp at h ⊢; omega)
+    simpa [cutPairs] using this
+
+theorem coarseCell_ok (g : Grid) (a b : Int) (c : CoarseCell) (h : coarseCell g a b = .ok (some c)) :
     c.minor = sel (g.mask a b) g.idx ∧ c.minor ≠ [] ∧ c.dt = (sel (g.mask a b) g.dt).sum ∧
     c.I = c.minor.tail.foldl min (c.minor.headD 0) ∧ g.Dt[c.I]? = some c.Dt ∧ g.pts[c.I]? = some c.pt ∧
     dfAt g c.I = some c.df := by
@@ -186,35 +224,61 @@ theorem coarseCell_ok (g : Grid) (a b : Int) (c : CoarseCell) (h : coarseCell g 
           cases h
           simp [hD, hp, hf]
 
-theorem coarseCells_ok (g : Grid) : ∀ (cuts : List Int) (cells : List CoarseCell), coarseCells g cuts = .ok cells →
-    cells.length = cuts.length - 1 ∧
-    ∀ j (hj : j + 1 < cuts.length), ∃ c, cells[j]? = some c ∧ coarseCell g cuts[j] cuts[j+1] = .ok c
-  | [], cells, h => by simp [coarseCells] at h; subst h; simp
-  | [a], cells, h => by simp [coarseCells] at h; subst h; simp
+/-- a pair of cuts is skipped exactly when it holds no fine step -/
+theorem coarseCell_none_iff (g : Grid) (a b : Int) : coarseCell g a b = .ok none ↔ sel (g.mask a b) g.idx = [] := by
+  unfold coarseCell
+  cases hsel : sel (g.mask a b) g.idx with
+  | nil => simp
+  | cons i is =>
+    simp only
+    cases g.Dt[is.foldl min i]? <;> cases g.pts[is.foldl min i]? <;> cases dfAt g (is.foldl min i) <;> simp
+
+/-- the cells are made from exactly the pairs of cuts that hold a fine step, in order -/
+theorem coarseCells_spec (g : Grid) : ∀ (cuts : List Int) (cells : List CoarseCell), coarseCells g cuts = .ok cells →
+    cells.map (·.minor) = ((cutPairs cuts).filter (hasFine g)).map (fun ab => sel (g.mask ab.1 ab.2) g.idx) ∧
+    cells.map (·.dt) = ((cutPairs cuts).filter (hasFine g)).map (fun ab => (sel (g.mask ab.1 ab.2) g.dt).sum) ∧
+    ∀ c ∈ cells, c.minor ≠ [] ∧ ∃ ab ∈ cutPairs cuts, hasFine g ab = true ∧ coarseCell g ab.1 ab.2 = .ok (some c)
+  | [], cells, h => by simp [coarseCells] at h; subst h; simp [cutPairs]
+  | [a], cells, h => by simp [coarseCells] at h; subst h; simp [cutPairs]
   | a :: b :: rest, cells, h => by
     unfold coarseCells at h
     cases hc : coarseCell g a b with
     | error e => rw [hc] at h; cases h
-    | ok c =>
+    | ok oc =>
       cases hm : coarseCells g (b :: rest) with
       | error e => rw [hc, hm] at h; cases h
       | ok more =>
         rw [hc, hm] at h
-        cases h
-        have ih := coarseCells_ok g (b :: rest) more hm
-        refine ⟨by simp [ih.1], ?_⟩
-        intro j hj
-        cases j with
-        | zero => exact ⟨c, by simp, by simpa using hc⟩
-        | succ j =>
-          obtain ⟨c', h1, h2⟩ := ih.2 j (by simp at hj ⊢; omega)
-          exact ⟨c', by simpa using h1, by simpa using h2⟩
+        have ih := coarseCells_spec g (b :: rest) more hm
+        cases oc with
+        | none =>
+          cases h
+          have hf : hasFine g (a, b) = false := (hasFine_false_iff g (a, b)).mpr ((coarseCell_none_iff g a b).mp hc)
+          refine ⟨by simp [cutPairs, hf, ih.1], by simp [cutPairs, hf, ih.2.1], ?_⟩
+          intro c hcm
+          obtain ⟨h1, ab, hab, h2⟩ := ih.2.2 c hcm
+          exact ⟨h1, ab, by simp [cutPairs, hab], h2⟩
+        | some c =>
+          cases h
+          have hk := coarseCell_ok g a b c hc
+          have hf : hasFine g (a, b) = true := (hasFine_true_iff g (a, b)).mpr (by
+            show sel (g.mask a b) g.idx ≠ []
+            rw [← hk.1]; exact hk.2.1)
+          refine ⟨by simp [cutPairs, hf, ih.1, hk.1], by simp [cutPairs, hf, ih.2.1, hk.2.2.1], ?_⟩
+          intro c' hcm
+          rcases List.mem_cons.mp hcm with rfl | hcm
+          · exact ⟨hk.2.1, (a, b), by simp [cutPairs], hf, hc⟩
+          · obtain ⟨h1, ab, hab, h2⟩ := ih.2.2 c' hcm
+            exact ⟨h1, ab, by simp [cutPairs, hab], h2⟩
 
 /-- the minor lists of all coarse steps, concatenated, are exactly the reference indices of the steps in
-    `[first cut, last cut)`; the coarse step lengths add up to the fine step lengths of that range -/
+    `[first cut, last cut)` (skipped pairs of cuts hold no fine step, so nothing is lost by skipping); the
+    coarse step lengths add up to the fine step lengths of that range (for this the reference must not have
+    more step lengths than indices: a skipped pair is recognised by its indices) -/
 theorem coarseCells_cover (g : Grid) (hp : g.pts.Pairwise (· ≤ ·)) : ∀ (cuts : List Int) (cells : List CoarseCell),
     coarseCells g cuts = .ok cells → cuts.Pairwise (· ≤ ·) → ∀ c0 cn, cuts.head? = some c0 → cuts.getLast? = some cn →
-    (cells.map (·.minor)).flatten = sel (g.mask c0 cn) g.idx ∧ (cells.map (·.dt)).sum = (sel (g.mask c0 cn) g.dt).sum
+    (cells.map (·.minor)).flatten = sel (g.mask c0 cn) g.idx ∧
+    (g.dt.length ≤ g.idx.length → (cells.map (·.dt)).sum = (sel (g.mask c0 cn) g.dt).sum)
   | [], _, _, _, _, _, h0, _ => by simp at h0
   | [a], cells, h, _, c0, cn, h0, hn => by
     simp [coarseCells] at h; subst h
@@ -224,12 +288,11 @@ theorem coarseCells_cover (g : Grid) (hp : g.pts.Pairwise (· ≤ ·)) : ∀ (cu
     unfold coarseCells at h
     cases hcell : coarseCell g a b with
     | error e => rw [hcell] at h; cases h
-    | ok c =>
+    | ok oc =>
       cases hm : coarseCells g (b :: rest) with
       | error e => rw [hcell, hm] at h; cases h
       | ok more =>
         rw [hcell, hm] at h
-        cases h
         simp at h0; subst h0
         have hc' := List.pairwise_cons.mp hc
         have hn' : (b :: rest).getLast? = some cn := by simpa [List.getLast?_cons_cons] using hn
@@ -240,12 +303,24 @@ theorem coarseCells_cover (g : Grid) (hp : g.pts.Pairwise (· ≤ ·)) : ∀ (cu
           rcases List.mem_cons.mp hmem with h | h
           · omega
           · exact (List.pairwise_cons.mp hc'.2).1 cn h
-        obtain ⟨hmin, _, hdt, _⟩ := coarseCell_ok g a b c hcell
-        constructor
-        · simp only [List.map_cons, List.flatten_cons, ih.1, hmin, Grid.mask_eq]
-          exact sel_win_append a b cn hab hbn g.pts hp g.idx
-        · simp only [List.map_cons, List.sum_cons, ih.2, hdt, Grid.mask_eq]
-          rw [← sel_win_append a b cn hab hbn g.pts hp g.dt, List.sum_append]
+        cases oc with
+        | none =>
+          cases h
+          have he : sel (g.pts.map (win a b)) g.idx = [] := (coarseCell_none_iff g a b).mp hcell
+          constructor
+          · rw [ih.1, Grid.mask_eq, Grid.mask_eq, ← sel_win_append a b cn hab hbn g.pts hp g.idx, he, List.nil_append]
+          · intro hl
+            have he' : sel (g.pts.map (win a b)) g.dt = [] := sel_eq_nil_of_length_le _ g.idx g.dt he hl
+            rw [ih.2 hl, Grid.mask_eq, Grid.mask_eq, ← sel_win_append a b cn hab hbn g.pts hp g.dt, he', List.nil_append]
+        | some c =>
+          cases h
+          obtain ⟨hmin, _, hdt, _⟩ := coarseCell_ok g a b c hcell
+          constructor
+          · simp only [List.map_cons, List.flatten_cons, ih.1, hmin, Grid.mask_eq]
+            exact sel_win_append a b cn hab hbn g.pts hp g.idx
+          · intro hl
+            simp only [List.map_cons, List.sum_cons, ih.2 hl, hdt, Grid.mask_eq]
+            rw [← sel_win_append a b cn hab hbn g.pts hp g.dt, List.sum_append]
 
 
 /-! ### `values_to_grid` -/
@@ -489,7 +564,7 @@ theorem sel_range'_head {α} : ∀ (m : List Bool) (k : Nat) (xs : List α) (i :
 
 /-- for a reference grid with `I = 0..T-1` (top level, or re-based as in the split set-up) a coarse cell
     carries index, point and `Dt` of its FIRST minor step -/
-theorem coarseCell_first (g : Grid) (a b : Int) (c : CoarseCell) (h : coarseCell g a b = .ok c)
+theorem coarseCell_first (g : Grid) (a b : Int) (c : CoarseCell) (h : coarseCell g a b = .ok (some c))
     (hidx : g.idx = List.range g.pts.length) (hDt : g.Dt.length = g.pts.length) :
     c.minor.head? = some c.I ∧ (sel (g.mask a b) g.pts).head? = some c.pt ∧ (sel (g.mask a b) g.Dt).head? = some c.Dt := by
   obtain ⟨hmin, hne, _, hI, hD, hp, _⟩ := coarseCell_ok g a b c h
